@@ -1,6 +1,7 @@
 package vc
 
 import (
+	"fmt"
 	"go/ast"
 	"go/types"
 	"strings"
@@ -124,6 +125,10 @@ func (fx *fctx) onFieldRead(st *State, key string, addr *Term) {
 func (fx *fctx) noteWrite(st *State, key string, addr *Term) {
 	if fx.inTypeInv {
 		return
+	}
+	if fx.con != nil && len(fx.con.AssignsAt[key]) > 0 && !fx.spec && fx.e.boxMode == 0 {
+		fx.atOrd++
+		fx.assert(st, "assigns-at", fmt.Sprintf("%s#%d", key, fx.atOrd), fx.allowedWriteAddr(key, addr), fx.fi.Decl, nil, "write to "+key+" only at "+strings.Join(fx.con.AssignsAt[key], ", ")+" or at a fresh object")
 	}
 	ti := fx.e.typeInvForKey(key)
 	if ti == nil {
